@@ -7,6 +7,10 @@
 // LICENSE file in the root of the Project.
 
 #include <nix/util/util.hpp>
+#include <nix/verif_hooks.hpp>
+#ifdef NIX_VERIF_HOOKS
+#include <sstream>
+#endif
 
 #include "DataArrayHDF5.hpp"
 #include "h5x/H5DataSet.hpp"
@@ -269,6 +273,13 @@ bool DataArrayHDF5::hasData() const {
 }
 
 void DataArrayHDF5::write(DataType dtype, const void *data, const NDSize &count, const NDSize &offset) {
+#ifdef NIX_VERIF_HOOKS
+    if (nix::verif::armed()) {
+        std::ostringstream verif_detail;
+        verif_detail << group().name() << "\t" << dtype << "\t" << count << "\t" << offset;
+        nix::verif::emit("io.write", verif_detail.str());
+    }
+#endif
 
     if (!group().hasData("data")) {
         throw ConsistencyError("DataArray with missing h5df DataSet");
@@ -289,6 +300,13 @@ void DataArrayHDF5::write(DataType dtype, const void *data, const NDSize &count,
 }
 
 void DataArrayHDF5::read(DataType dtype, void *data, const NDSize &count, const NDSize &offset) const {
+#ifdef NIX_VERIF_HOOKS
+    if (nix::verif::armed()) {
+        std::ostringstream verif_detail;
+        verif_detail << group().name() << "\t" << dtype << "\t" << count << "\t" << offset;
+        nix::verif::emit("io.read", verif_detail.str());
+    }
+#endif
     if (!group().hasData("data")) {
         throw ConsistencyError("DataArray with missing h5df DataSet");
     }
